@@ -689,6 +689,17 @@ def fam_c07():
     # fixed function, spread call
     add("fix2-spread", [FnStmt("f", ["a", "b"], [P(Id("a")), P(Id("b")), Ret(I(0))]), Try([E(Call("f", PV(1, L(I(7), I(8))), spread=True))], "e", [P(60)]), Ret(I(0))])
     add("fix3-spread-1", [FnStmt("f", ["a", "b", "c"], [P(Id("a")), P(Id("b")), P(Id("c")), Ret(I(0))]), Try([E(Call("f", PV(1, I(6)), PV(2, L(I(7), I(8))), spread=True))], "e", [P(60)]), Ret(I(0))])
+    # a spread list with more elements than parameters is a wrong argument count (after the operands have run); so is any spread into a function without parameters
+    f0, f1, f2d = FnStmt("f0", [], [P(50), Ret(I(0))]), FnStmt("f1", ["a"], [P(Id("a")), Ret(I(1))]), FnStmt("f2", ["a", "b"], [P(Id("a")), P(Id("b")), Ret(I(2))])
+    add("spread-surplus-fn1", [f1, Try([P(Call("f1", PV(1, L(I(7), I(8))), spread=True))], "e", [P(60)]), P(61), Ret(I(0))])
+    add("spread-surplus-fn2", [f2d, Try([P(Call("f2", PV(1, L(I(7), I(8), I(9))), spread=True))], "e", [P(60)]), P(61), Ret(I(0))])
+    add("spread-surplus-fn2-fixed", [f2d, Try([P(Call("f2", PV(1, I(6)), PV(2, L(I(7), I(8))), spread=True))], "e", [P(60)]), P(61), Ret(I(0))])
+    add("spread-into-fn0", [f0, Try([P(Call("f0", PV(1, L(I(7))), spread=True))], "e", [P(60)]), P(61), Ret(I(0))])
+    add("spread-empty-into-fn0", [f0, Try([P(Call("f0", PV(1, L()), spread=True))], "e", [P(60)]), P(61), Ret(I(0))])
+    add("spread-surplus-go", [Try([P(Call("pv", PV(1, L(I(7), I(8), I(9))), spread=True))], "e", [P(60)]), P(61), Ret(I(0))])
+    add("spread-surplus-anon", [Try([P(ACall(Fn(["a"], [P(Id("a")), Ret(I(1))]), PV(1, L(I(7), I(8))), spread=True))], "e", [P(60)]), P(61), Ret(I(0))])
+    add("spread-surplus-defer", [f1, FnStmt("d", [], [Defer(Call("f1", PV(1, L(I(7), I(8))), spread=True)), P(40), Ret(I(0))]), Try([E(Call("d"))], "e", [P(60)]), P(61), Ret(I(0))])
+    add("spread-exact-fn2", [f2d, Try([P(Call("f2", PV(1, L(I(7), I(8))), spread=True))], "e", [P(60)]), P(61), Ret(I(0))])
     # Go functions: fixed (pv), variadic (pn)
     for bad in (None, 0, 1):
         add("go-fixed-%s" % bad, [Try([P(Call("pv", *[BAD if j == bad else PV(j + 1, I(j + 1)) for j in range(2)]))], "e", [P(60)]), Ret(I(0))])
